@@ -105,13 +105,26 @@ def constructed():
                 t = rng.choice((s, 0, 18, rng.randrange(0, 19)))
                 for op in OPS:
                     out.append("%s * %s %s" % (op, G.fD(c, s), G.fD(d, t)))
+    # coefficients at floor(T / 10^k) +- 2 for the maxima T of the primitive types, re-scaled by exactly 10^k
+    for v, k in G.type_scaled_thresholds():
+        for p in (0, rng.randrange(0, 19 - k)):
+            q = p + k
+            other = rng.choice((1, -1, 0, rng.randrange(-10 ** 6, 10 ** 6), rng.randrange(-M, M)))
+            op = rng.choice(OPS)
+            out.append("%s * %s %s" % (op, G.fD(v, p), G.fD(other, q)))
+            out.append("%s * %s %s" % (op, G.fD(other, q), G.fD(v, p)))
+        if abs(v) < (1 << 63):
+            ty = "i64" if abs(v) < (1 << 63) else "i128"
+            out.append("%s * %s %s" % (rng.choice(OPS), G.fI(ty, v), G.fD(rng.randrange(-10 ** 6, 10 ** 6), k)))
+            out.append("%s * %s %s" % (rng.choice(OPS), G.fD(rng.randrange(-10 ** 6, 10 ** 6), k), G.fI("i128", v)))
     # int operands at the type bounds, both positions, all scales
     for ty in OP_INT_TYPES:
         lo, hi = INT_TYPES[ty]
         for v in (lo, lo + 1, hi, hi - 1, 0, 1):
             for s in (0, 1, 9, 17, 18):
-                for c in (0, 1, -1, M, -M, M - abs(v) * P10[s] if abs(v) * P10[s] <= M else 5,
-                          -(M + 1) + abs(v) * P10[s] if abs(v) * P10[s] <= M else -5):
+                w = abs(v) * P10[s]
+                edge = [M - w, -(M + 1) + w, (M + 1) - w, -M + w, M - w + 1, -(M + 1) + w - 1, (M + 1) - w + 1] if w <= M else [5, -5]
+                for c in [0, 1, -1, M, -M] + edge:
                     if abs(c) > M:
                         continue
                     for op in OPS:
